@@ -1,297 +1,1198 @@
-"""C17 generated contraction code (structural clauses)."""
+"""C17 generated contraction code: the emitted program is evaluated against the expression."""
 from __future__ import annotations
 
-import ast
+import math
+from fractions import Fraction
 
-from ..model import AnalysisError, U, Defs, calls_in, call_name, walk_fn, kwarg, enclosing, enclosing_stmt
-from ..pathcond import conditions
-from . import common
+from ..model import AnalysisError
+from ..symex import Symex, Rec
+from ..terms import T, show
 from . import c16
+from . import emitted as em
 
 EXPLANATION = (
-    "R17a: in format_contraction operand names and index strings are appended in the same branch, "
-    "the einsum string joins the index strings in operand order and ends in the target string, "
-    "inner contractions are looked up by name and a miss raises. R17b: every backend dispatch ends "
-    "in NotImplementedError (format_contraction, format_scaling_comment, format_prefactor, "
-    "_format_*_prefactor). R17c: tensor names are translated by equality with the configured name "
-    "(plus block suffix), never by startswith. R17d: sign pairing in format_prefactor and "
-    "format_perm_symmetry; rational/sqrt formats. R17e: generate_code hands the same targets, spin, "
-    "bra-ket symmetry and tensor class to exploit_perm_sym, strips separators afterwards, forwards "
-    "targets/limits to the scheme builders, emits inner contractions before the single outer one. "
-    "Also R16a/R16g (scheme shape and closure), which the emitted program depends on.")
-ASSUMPTIONS = ["that the emitted program evaluates to the expression is not decided"]
+    "Every function of generate_code.py is evaluated by the abstract evaluator (sa.symex) on concrete abstract records "
+    "(indices, contractions, terms, objects, sympy numbers as a small exact domain c*sqrt(n), permutation operators; the "
+    "configured tensor names are set to non-default values) and the *emitted text* is executed by an independent "
+    "interpreter (sa/rules/emitted.py: brute-force einsum, contract, dot_product, labelled products, C++ integer "
+    "division, permutation operators, comments) on deterministic pseudo-random tensor values; the value is compared "
+    "with the value of the expression computed from the term structure for every assignment of the target indices in "
+    "the requested order. No check looks at source text, local names or statement layout. "
+    "R17a: format_contraction / format_einsum_contraction / format_libtensor_contraction on a table of contractions "
+    "(reorder, diagonal, trace, pair, hyper-contraction, outer product, inner product, scalar factor, general-space "
+    "indices, look-alike names, nested inner contraction from the cache) evaluate to sum_contracted prod operands in "
+    "target order (einsum) / by labels (libtensor); a missing inner contraction raises, libtensor partial traces and "
+    "index-free products are refused with NotImplementedError. R17b: format_contraction, format_scaling_comment, "
+    "format_prefactor refuse an unknown backend with NotImplementedError and _format_python_prefactor/"
+    "_format_cpp_prefactor refuse numbers outside integer/rational/sqrt/products; the scaling comment is a one-line "
+    "comment of the backend. R17c: decision table of translate_adcc_names / translate_libadc_names over configured and "
+    "look-alike tensor names (equality with <configured name>_<block>, never a prefix, never the default literal). "
+    "R17d: format_prefactor on a table of integers, rationals, square roots, products, signs, symbols with exponents "
+    "for both backends evaluates to the term's prefactor (C++ integer division is honoured); format_perm_symmetry on a "
+    "table of symmetries denotes 1 + sum factor*prod P (factors other than +-1 refused). "
+    "R17e: generate_code evaluated end to end with exploit_perm_sym, optimize_contractions and "
+    "term_memory_requirements as recorded black boxes and the library's own unoptimized_contraction evaluated through "
+    "(on an independent model of the Contraction constructor and the index factory): the symmetry analysis gets the "
+    "unmodified targets/spin/bra-ket symmetry/tensor class, the scheme builders get the separator-free targets, spin "
+    "and limits, the builder is selected by the flag, non-Expr input is refused, schemes with more than one outer "
+    "contraction are refused, and the whole program (all symmetry classes, all terms, pure-number terms, inner "
+    "contractions before the outer one) evaluates to sum_classes O_class(sum_terms prefactor * symbols * contraction) "
+    "for both backends and both builders, on four hand-built scenarios and on pseudo-random terms with closed schemes "
+    "(20 quick / 120 thorough). R17f: unoptimized_contraction evaluated on terms with exponents, deltas, symbols, "
+    "spin yields one hyper-contraction whose operand list is the term's tensors/deltas exponent-many times (names and "
+    "indices aligned) with the requested target indices; divisions are refused. Also R16a/R16b/R16g (scheme shape and "
+    "closure, owned by C16), which the emitted program depends on.")
+ASSUMPTIONS = [
+    "optimize_contractions, exploit_perm_sym, term_memory_requirements and Obj.longname are black boxes here: "
+    "generate_code is evaluated on valid schemes/symmetry classes built by the rule (C16 / C15 decide the builders)",
+    "bounded: the tables of contractions, prefactors, symmetries and the pseudo-random terms listed in the evidence; "
+    "index ranges 2 (occ, general) and 3 (virt); one fixed pseudo-random value per tensor element",
+    "libtensor semantics assumed by the interpreter: contract(l, ...) sums the listed labels over the product of any "
+    "number of operands, dot_product sums all labels, a product of labelled tensors is the product by labels (a shared "
+    "label is elementwise, a label repeated on one tensor addresses its diagonal), results are assigned by label; "
+    "whether libtensor itself accepts n-ary dot_product/contract, a shared label in a direct product or a repeated "
+    "label is not decided",
+    "the text of the scaling comment (N^k: O^n V^m) is not decided, only that it is a one-line comment of the backend",
+    "exception messages are not decided, only the exception class",
+]
 
 GC = "generate_code.generate_code:"
+OC = "generate_code.optimize_contractions:"
+CO = "generate_code.contraction:"
+SPACE = {"o": "occ", "v": "virt", "g": "general"}
+ERI, FOCK = "W", "g"              # configured names used by the scenarios (deliberately not the defaults)
+
+
+# ------------------------------------------------------------------ abstract values
+
+class SNum:
+    """Exact model of a sympy number c*sqrt(n) (c rational, n squarefree): Integer/Rational (n = 1), Pow(n, 1/2)
+    (c = 1), Mul(c, Pow(n, 1/2)); ``other`` marks a number of a kind the formatters do not know (e.g. pi)."""
+
+    def __init__(self, c, n=1, other=None):
+        c, n = Fraction(c), int(n)
+        k = 2
+        while k * k <= n:
+            while n % (k * k) == 0:
+                n //= k * k
+                c *= k
+            k += 1
+        self.c, self.n, self.other = c, n, other
+
+    # python protocol used by the evaluated code
+    def _coerce(self, o):
+        if isinstance(o, SNum):
+            return o
+        if isinstance(o, (int, Fraction)) and not isinstance(o, bool):
+            return SNum(o)
+        if isinstance(o, float) and o == int(o * 4) / 4:
+            return SNum(Fraction(o))
+        return None
+
+    def value(self):
+        return float(self.c) * math.sqrt(self.n) * (math.pi if self.other else 1.0)
+
+    def __eq__(self, o):
+        o = self._coerce(o)
+        return o is not None and (self.c, self.n, self.other) == (o.c, o.n, o.other)
+
+    def __ne__(self, o):
+        return not self.__eq__(o)
+
+    def __hash__(self):
+        return hash((self.c, self.n, self.other))
+
+    def __lt__(self, o):
+        return self.value() < self._coerce(o).value()
+
+    def __gt__(self, o):
+        return self.value() > self._coerce(o).value()
+
+    def __le__(self, o):
+        return self.value() <= self._coerce(o).value()
+
+    def __ge__(self, o):
+        return self.value() >= self._coerce(o).value()
+
+    def __mul__(self, o):
+        o = self._coerce(o)
+        if o is None:
+            return NotImplemented
+        return SNum(self.c * o.c, self.n * o.n, self.other or o.other)
+
+    __rmul__ = __mul__
+
+    def __truediv__(self, o):
+        o = self._coerce(o)
+        if o is None or o.other:
+            return NotImplemented
+        if o.c == 0:
+            raise ZeroDivisionError
+        return SNum(self.c / (o.c * o.n), self.n * o.n, self.other)
+
+    def __rtruediv__(self, o):
+        o = self._coerce(o)
+        return NotImplemented if o is None else o.__truediv__(self)
+
+    def __neg__(self):
+        return SNum(-self.c, self.n, self.other)
+
+    def __abs__(self):
+        return SNum(abs(self.c), self.n, self.other)
+
+    def __int__(self):
+        return int(self.value())
+
+    def __float__(self):
+        return self.value()
+
+    def __str__(self):            # sympy's str
+        if self.other:
+            return self.other if self.c == 1 else f"{self.c}*{self.other}"
+        if self.n == 1:
+            return str(self.c)
+        num, den = self.c.numerator, self.c.denominator
+        text = f"sqrt({self.n})" if abs(num) == 1 else f"{abs(num)}*sqrt({self.n})"
+        return ("-" if num < 0 else "") + text + (f"/{den}" if den != 1 else "")
+
+    __repr__ = __str__
+
+    def __deepcopy__(self, memo):
+        return self
+
+    # evaluator protocol
+    def kind(self):
+        if self.other:
+            return "NumberSymbol" if self.c == 1 else "Mul"
+        if self.n == 1:
+            return "Integer" if self.c.denominator == 1 else "Rational"
+        return "Pow" if self.c == 1 else "Mul"
+
+    def sx_isinstance(self, sx, cname):
+        k = self.kind()
+        if cname in ("Rational", "Number"):
+            return k in ("Integer", "Rational")
+        if cname in ("Expr", "Basic", "Atom") and cname != "Expr":
+            return True
+        return cname == k
+
+    def sx_getattr(self, sx, attr, node):
+        k = self.kind()
+        if attr in ("p", "numerator") and k in ("Integer", "Rational"):
+            return self.c.numerator
+        if attr in ("q", "denominator") and k in ("Integer", "Rational"):
+            return self.c.denominator
+        if attr == "args":
+            if k == "Pow":
+                return (self.n, Fraction(1, 2))
+            if k == "Mul":
+                rest = SNum(1, self.n, self.other)
+                return (SNum(self.c), rest)
+            return ()
+        if attr == "is_number":
+            return True
+        if attr in ("is_Rational", "is_rational"):
+            return k in ("Integer", "Rational")
+        if attr in ("is_Integer", "is_integer"):
+            return k == "Integer"
+        if attr == "is_negative":
+            return self.value() < 0
+        if attr == "is_positive":
+            return self.value() > 0
+        sx.unsupported(node, f"attribute {attr} of a sympy number is not modelled")
+
+    def sx_term(self):
+        return T("sym", f"<{self}>")
+
+    def sx_str(self, sx):
+        return str(self)
+
+
+class Ordered(Rec):
+    """A record of a dataclass(order=True): compared by the tuple of its fields."""
+
+    def key(self):
+        return tuple(self.attrs[f] for f in self.attrs["_fields"])
+
+    def __lt__(self, o):
+        return self.key() < o.key()
+
+    def __gt__(self, o):
+        return self.key() > o.key()
+
+    def __le__(self, o):
+        return self.key() <= o.key()
+
+    def __ge__(self, o):
+        return self.key() >= o.key()
+
+
+def index(name, space, spin=""):
+    sp = SPACE[space]
+    return Rec("indices:Index", name + (f"_{spin}" if spin else ""), name=name, space=sp, spin=spin,
+               space_and_spin=(sp, spin))
+
+
+class World:
+    """Indices by name (one record per name and spin: identity is equality, as for adcgen's Index)."""
+
+    def __init__(self):
+        self.idx = {}
+
+    def __call__(self, names, spin=None):
+        out = []
+        for k, n in enumerate(names):
+            s = spin[k] if spin else ""
+            sp = "o" if n[0] in "ijklmno" else "v" if n[0] in "abcdefgh" else "g"
+            key = (n, s)
+            if key not in self.idx:
+                self.idx[key] = index(n, sp, s)
+            out.append(self.idx[key])
+        return tuple(out)
+
+
+def spaces_of(indices):
+    return "".join(i.attrs["space"][0] for i in indices)
+
+
+def scaling_component(total, general, virt, occ):
+    return Ordered(CO + "ScalingComponent", "scaling_component", total=total, general=general, virt=virt, occ=occ,
+                   _fields=("total", "general", "virt", "occ"))
+
+
+def scaling_of(contracted, target):
+    def comp(ix):
+        sp = spaces_of(ix)
+        return scaling_component(len(sp), sp.count("g"), sp.count("v"), sp.count("o"))
+    c, m = comp(tuple(contracted) + tuple(target)), comp(target)
+    return Ordered(CO + "Scaling", "scaling", computational=c, memory=m, _fields=("computational", "memory"))
+
+
+class Names:
+    """contraction names as the library's own Contraction.__init__ / is_contraction build and recognise them."""
+
+    def __init__(self, model):
+        self.model = model
+        self.cache = {}
+
+    def __call__(self, ident):
+        if ident not in self.cache:
+            holder = []
+
+            def args():
+                r = Rec(CO[:-1] + ":Contraction", "contraction")
+                holder.append(r)
+                return dict(self=r, indices=(), names=(), term_target_indices=())
+            noop = lambda sx, a, kw: None
+            sx = Symex(self.model, inline=lambda q: True, what="Contraction.__init__",
+                       hooks={"next": lambda sx, a, kw: ident, "Contraction._determine_contracted_and_target": noop,
+                              "Contraction._determine_scaling": noop, "_determine_contracted_and_target": noop,
+                              "_determine_scaling": noop})
+            outs = sx.run(CO + "Contraction.__init__", args)
+            rec = holder[-1] if holder else None
+            name = rec.attrs.get("contraction_name") if rec is not None else None
+            if name is None and rec is not None:           # a computed attribute
+                try:
+                    name = sx.getattr(rec, "contraction_name", None)
+                except AnalysisError:
+                    name = None
+            if not isinstance(name, str) or not name:
+                raise AnalysisError(f"C17: Contraction.__init__ does not give a concrete contraction_name: {outs}")
+            self.cache[ident] = name
+        return self.cache[ident]
+
+
+def contraction(cname, ident, names, indices, term_target):
+    """A Contraction record; contracted/target by the documented split (target iff the index occurs once or is a
+    target index of the term; the order of ``term_target`` is adopted if the sets agree, else first occurrence with
+    occupied before virtual)."""
+    count = {}
+    for ix in indices:
+        for i in ix:
+            count[i] = count.get(i, 0) + 1
+    order = lambda i: ({"g": 0, "o": 1, "v": 2}[i.attrs["space"][0]], i.attrs["spin"], i.attrs["name"])
+    contracted = sorted((i for i, n in count.items() if n > 1 and i not in term_target), key=order)
+    target = sorted((i for i, n in count.items() if n == 1 or i in term_target), key=order)
+    if sorted(term_target, key=order) == target:
+        target = list(term_target)
+    return Rec(CO + "Contraction", cname(ident), indices=tuple(indices), names=tuple(names), contracted=tuple(contracted),
+               target=tuple(target), scaling=scaling_of(contracted, target), id=ident, contraction_name=cname(ident))
+
+
+def tensor_names_rec():
+    return Rec("tensor_names:TensorNames", "tensor_names", eri=ERI, coulomb="u", fock=FOCK, operator="D",
+               gs_amplitude="s", gs_density="r", left_adc_amplitude="L", right_adc_amplitude="R", orb_energy="eps",
+               sym_orb_denom="Q")
+
+
+def fields_hook(sx, a, kw):
+    """dataclasses.fields(C): one record per annotated field of the class, in order."""
+    from ..symex import ClassRef
+    import ast
+    if len(a) == 1 and isinstance(a[0], ClassRef):
+        c = a[0].module.classes[a[0].qual]
+        return tuple(Rec(None, f"field {st.target.id}", name=st.target.id) for st in c.body
+                     if isinstance(st, ast.AnnAssign) and isinstance(st.target, ast.Name))
+    return NotImplemented
+
+
+class PermRec(Rec):
+    """symmetry.Permutation (a tuple subclass) as a record with items."""
+
+    def __getitem__(self, k):
+        return self.attrs["_items"][k]
+
+    def __iter__(self):
+        return iter(self.attrs["_items"])
+
+    def __len__(self):
+        return len(self.attrs["_items"])
+
+
+def permutation(p, q):
+    return PermRec("symmetry:Permutation", f"P_{p.label}{q.label}", _items=(p, q))
+
+
+def make_sx(ctx, what, hooks=None, **kw):
+    hk = {"tensor_names": tensor_names_rec(), "fields": fields_hook,
+          "S": Rec(None, "S", Half=SNum(Fraction(1, 2)), One=SNum(1), Zero=SNum(0), NegativeOne=SNum(-1)),
+          "term_memory_requirements": lambda sx, a, k: scaling_component(0, 0, 0, 0)}
+    hk.update(hooks or {})
+    return Symex(ctx.model, inline=lambda q: True, hooks=hk, what=what, **kw)
+
+
+def concrete(outs):
+    """The single concrete string a function returns, or a description of what it does instead."""
+    if len(outs) == 1 and outs[0].kind == "return" and isinstance(outs[0].value, str):
+        return outs[0].value, None
+    if len(outs) == 1 and outs[0].kind == "raise":
+        return None, f"raises {outs[0].exc}"
+    if len(outs) == 1:
+        return None, f"returns the non-text value {show(outs[0].value)[:160]}"
+    return None, f"{len(outs)} outcomes depending on {sorted({show(a) for o in outs for a, _ in o.path})[:3]}"
+
+
+def refused(outs, exc="NotImplementedError"):
+    return bool(outs) and all(o.kind == "raise" and o.exc == exc for o in outs)
+
+
+# --------------------------------------------------------------------------- operands
+
+def token_env(backend, operands, extra=None, symbols=None):
+    """What the operand tokens of an emitted program have to denote: independent statement of the adcc / libadc naming
+    (hf.<block>, hf.f<block>; i_<block>, pi<n>), everything else under its own long name."""
+    tensors, scalars = {}, {}
+    for name, indices in operands:
+        sp = spaces_of(indices)
+        key = operand_key(name, sp)
+        if key[0] == "eri":
+            tok = f"hf.{sp}" if backend == "einsum" else f"i_{sp}"
+        elif key[0] == "fock" and backend == "einsum":
+            tok = f"hf.f{sp}"
+        elif key[0] == "t2eri" and backend == "libtensor":
+            tok = f"pi{key[1]}"
+        else:
+            tok = name
+        if not indices:
+            scalars[tok] = em.value_of(key, ())
+        else:
+            if tok in tensors and tensors[tok] != (key, sp):
+                raise AnalysisError(f"C17 scenario: token {tok} denotes two tensors")
+            tensors[tok] = (key, sp)
+    tensors.update(extra or {})
+    return em.Env(tensors, symbols or {}, scalars)
+
+
+def operand_key(name, sp):
+    """Identity of the tensor an object long name stands for."""
+    if name == f"{ERI}_{sp}":
+        return ("eri", sp)
+    if name == f"{FOCK}_{sp}":
+        return ("fock", sp)
+    if name.startswith("t2eri_") and name[6:].isdigit():
+        return ("t2eri", name[6:], sp)
+    if name == f"d_{sp}" and sp:
+        return ("delta", sp)
+    return ("tensor", name, sp)
+
+
+def idx_pairs(indices):
+    return [(i.attrs["name"], i.attrs["space"][0]) for i in indices]
+
+
+# ------------------------------------------------------------------------------- R17a
+
+def contraction_cases(w, cname):
+    """(label, contraction, cache entries {name: (inner contraction | scalar operand list)}, both backends?)."""
+    i, j, k, l, a, b, c = w("ijklabc")
+    cases = []
+
+    def add(label, names, indices, target, inner=None):
+        cases.append((label, contraction(cname, 90 + len(cases), names, indices, target), inner or {}))
+    add("reorder x_ai -> ia", ["x_vo"], [(a, i)], (i, a))
+    add("identity x_ia -> ia", ["x_ov"], [(i, a)], (i, a))
+    add("eri block reordered", [f"{ERI}_oovv"], [(i, j, a, b)], (i, a, j, b))
+    add("pair A_ij B_jk", ["A_oo", "B_oo"], [(i, j), (j, k)], (i, k))
+    add("pair, requested order ki", ["A_oo", "B_oo"], [(i, j), (j, k)], (k, i))
+    add("fock and eri", [f"{FOCK}_ov", f"{ERI}_ovov"], [(j, b), (i, a, j, b)], (i, a))
+    add("hyper-contraction of three", ["A_ov", "B_ov", "C_oo"], [(i, a), (j, a), (i, j)], ())
+    add("outer product", ["A_ov", "B_ov"], [(i, a), (j, b)], (i, j, a, b))
+    add("inner product", ["A_ov", "B_ov"], [(i, a), (i, a)], ())
+    add("scalar factor times tensor", ["c0", "B_ov"], [(), (i, a)], (i, a))
+    add("scalar factor times pair", ["c0", "A_oo", "B_ov"], [(), (i, j), (j, a)], (i, a))
+    add("look-alike names", [f"{ERI}x_oo", f"{FOCK}{FOCK}_ov"], [(i, j), (j, a)], (i, a))
+    add("t2eri", ["t2eri_3", "B_ov"], [(i, j, k, a), (k, a)], (i, j))
+    p_, q_ = w("pq")
+    add("general-space indices", [f"{FOCK}_gg", "B_go"], [(p_, q_), (q_, i)], (p_, i))
+    add("diagonal d_ii -> i", ["A_oo"], [(i, i)], (i,))
+    add("target index on both operands", ["A_oo", "B_oo"], [(i, k), (i, k)], (i,))
+    # nested: the first operand is the result of an earlier contraction
+    inner = contraction(cname, 7, ["A_oo", "B_ov"], [(i, j), (j, a)], (i, l))
+    add("nested inner contraction", [cname(7), "C_ov"], [inner.attrs["target"], (l, a)], (i, l), {cname(7): inner})
+    inner0 = contraction(cname, 8, ["A_ov", "B_ov"], [(i, a), (i, a)], (k, l))
+    add("nested scalar contraction", [cname(8), "C_oo"], [(), (k, l)], (k, l), {cname(8): inner0})
+    return cases
+
+
+def expected_contraction(contr, inner, backend):
+    """Value table of a contraction over its own target indices + the flat operand list it stands for."""
+    flat = []
+    for name, ix in zip(contr.attrs["names"], contr.attrs["indices"]):
+        if name in inner:
+            sub = inner[name]
+            flat.extend(zip(sub.attrs["names"], sub.attrs["indices"]))
+        else:
+            flat.append((name, ix))
+    target = idx_pairs(contr.attrs["target"])
+    # the summed indices of an inner contraction never occur outside of it (closure), so one flat sum is the value
+    ops = [(operand_key(n, spaces_of(ix)), idx_pairs(ix)) for n, ix in flat]
+    return flat, target, em.product_value(ops, target)
+
+
+def emitted_value(text, env, backend, target):
+    try:
+        return em.as_table(em.run_expression(text, env, backend), target, backend), None
+    except em.EvalError as e:
+        return None, str(e)
 
 
 def r17a(ctx):
     rule = "R17a"
     fn = ctx.model.fn(GC + "format_contraction")
-    app = {U(c.func.value): c for c in calls_in(fn) if call_name(c) == "append"}
-    need = {"tensors", "idx_str", "factors"}
-    if not need <= set(app):
-        raise AnalysisError("format_contraction: operand lists changed")
-    t, i, f = app["tensors"], app["idx_str"], app["factors"]
-    same = enclosing_stmt(t)._parent is enclosing_stmt(i)._parent
-    ct, ci, cf = conditions(t), conditions(i), conditions(f)
-    ctx.check(rule, t, same and ("indices", True) in ct and ("indices", True) in ci,
-              "operand name and its index string appended together", "operand names and index strings can get out of step",
-              key="aligned append")
-    ctx.check(rule, f, ("indices", False) in cf, "objects without indices are factors", "factor branch changed", key="factors")
-    ctx.check(rule, i, U(i.args[0]) == "''.join((idx.name for idx in indices))", "index string = names of the object's indices in order",
-              f"index string built as `{U(i.args[0])}`", key="idx string")
-    tg = [a for a in common.assigns_to(fn, "target")]
-    ctx.check(rule, fn, len(tg) == 1 and U(tg[0].value) == "''.join((idx.name for idx in contraction.target))",
-              "target string = names of the contraction's target indices in order", "target string changed", key="target string")
-    lp = [n for n in walk_fn(fn) if isinstance(n, ast.For)]
-    ctx.check(rule, fn, bool(lp) and U(lp[0].iter) == "zip(contraction.names, contraction.indices)", "names and indices zipped",
-              "operand iteration changed", key="zip")
-    # cache lookup
-    ra = [n for n in walk_fn(fn) if isinstance(n, ast.Raise) and any(pol and t2.endswith("is None") for t2, pol in conditions(n))]
-    lk = [a for a in walk_fn(fn) if isinstance(a, ast.Assign) and U(a.value) == "contraction_cache.get(name, None)"]
-    ok = bool(ra) and len(lk) == 1 and ("Contraction.is_contraction(name)", True) in conditions(lk[0])
-    ctx.check(rule, fn, ok, "inner contraction looked up by name, miss raises", "inner-contraction lookup changed", key="cache")
-    es = ctx.model.fn(GC + "format_einsum_contraction")
-    cs = [a for a in common.assigns_to(es, "contr_str")]
-    ok = len(cs) == 1 and U(cs[0].value) in ("f'\"{','.join(indices)}->{target}\"'", "f\"\\\"{','.join(indices)}->{target}\\\"\"")
-    ctx.check(rule, es, ok or (len(cs) == 1 and "','.join(indices)" in U(cs[0].value) and "->{target}" in U(cs[0].value)
-                               and U(cs[0].value).index("join(indices)") < U(cs[0].value).index("->{target}")),
-              "einsum string: operand index strings, '->', target", f"einsum string is `{U(cs[0].value) if cs else None}`", key="einsum string")
-    ap = [c for c in calls_in(es) if call_name(c) == "append" and "einsum(" in U(c)]
-    ok = len(ap) == 1 and "', '.join(tensors)" in U(ap[0]) and U(ap[0]).index("contr_str") < U(ap[0]).index("join(tensors)")
-    ctx.check(rule, es, ok, "einsum(string, operands in the same order)", "einsum call assembly changed", key="einsum call")
-    sp = [n for n in walk_fn(es) if isinstance(n, ast.If) and "len(tensors) == 1" in U(n.test)]
-    ok = len(sp) == 1 and U(sp[0].test) == "len(tensors) == 1 and indices[0] == target"
-    ctx.check(rule, es, ok, "bare tensor only if its index order is the target order", "single-tensor shortcut changed", key="einsum shortcut")
-    r = common.returns_of(es)
-    ctx.check(rule, es, len(r) == 1 and U(r[0].value) == "' * '.join(components)", "factors and contraction multiplied", "return changed",
-              key="einsum return")
+    w = World()
+    cname = Names(ctx.model)
+    n = 0
+    for backend in ("einsum", "libtensor"):
+        for label, contr, inner in contraction_cases(w, cname):
+            sx = make_sx(ctx, f"format_contraction[{label}]")
+            # the cache holds what format_contraction emitted for the inner contractions
+            cache, bad = {}, None
+            for nm, sub in inner.items():
+                s, why = concrete(sx.run(fn, lambda: dict(contraction=sub, contraction_cache={}, backend=backend)))
+                if s is None:
+                    bad = why
+                cache[nm] = s
+            flat, target, want = expected_contraction(contr, inner, backend)
+            key = f"{backend} {label}"
+            if bad:
+                ctx.bad(rule, fn, f"{key}: inner contraction {bad}", key=key)
+                continue
+            outs = sx.run(fn, lambda: dict(contraction=contr, contraction_cache=dict(cache), backend=backend))
+            text, why = concrete(outs)
+            if text is None:
+                ctx.bad(rule, fn, f"format_contraction({key}) {why}", key=key)
+                continue
+            env = token_env(backend, flat)
+            got, err = emitted_value(text, env, backend, target)
+            n += 1
+            if err:
+                ctx.bad(rule, fn, f"{key}: emitted `{text}` is not executable: {err}", key=key)
+                continue
+            d = em.first_difference(got, want)
+            ctx.check(rule, fn, d is None, f"{key}: `{text}` evaluates to the contraction",
+                      f"{key}: emitted `{text}` does not evaluate to sum_contracted prod operands in the order "
+                      f"{[t for t, _ in target]}: at {d[0] if d else ''} it gives {d[1] if d else ''}, expected {d[2] if d else ''}",
+                      key=key)
+        # a missing inner contraction is an error, never an operand called "contraction_n"
+        i, j, a = w("ija")
+        c = contraction(cname, 55, [cname(54), "C_ov"], [(i, j), (j, a)], (i, a))
+        sx = make_sx(ctx, "format_contraction[cache miss]")
+        outs = sx.run(fn, lambda: dict(contraction=c, contraction_cache={}, backend=backend))
+        ctx.check(rule, fn, bool(outs) and all(o.kind == "raise" for o in outs), f"{backend}: unknown inner contraction refused",
+                  f"{backend}: an inner contraction that was never emitted is silently used as an operand: {outs}",
+                  key=f"{backend} cache miss")
+    ctx.floor(rule, "contractions executed", n, 30)
+    # libtensor: documented refusals
+    i, j, a, b = w("ijab")
+    sx = make_sx(ctx, "format_contraction[partial trace]")
+    c = contraction(cname, 60, ["A_oov", "B_ov"], [(i, i, a), (j, a)], (j,))
+    outs = sx.run(fn, lambda: dict(contraction=c, contraction_cache={}, backend="libtensor"))
+    ctx.check(rule, fn, refused(outs), "libtensor: partial trace refused with NotImplementedError",
+              f"libtensor: a partial trace (A_iia B_ja) is emitted: {outs}", key="libtensor partial trace")
     lt = ctx.model.fn(GC + "format_libtensor_contraction")
-    branches = {}
-    for c in calls_in(lt):
-        if call_name(c) in ("append", "extend") and U(c.func.value) == "components":
-            conds = conditions(c)
-            key = tuple(sorted((t2, pol) for t2, pol in conds if t2 in ("contracted", "target", "contracted and target",
-                                                                         "not contracted and target", "contracted and (not target)")))
-            branches[U(c.args[0])[:20]] = conds
-    ok = any("contract(" in k for k in branches) and any("dot_product" in k for k in branches)
-    ctx.check(rule, lt, ok, "contract / outer product / dot_product branches present", "libtensor branches changed", key="libtensor branches")
-    for k, conds in branches.items():
-        if "contract(" in k:
-            ctx.check(rule, lt, ("contracted", True) in conds and ("target", True) in conds, "contract: summed and target indices",
-                      "contract branch condition changed", key="lt contract")
-        if "dot_product" in k:
-            ctx.check(rule, lt, ("contracted", True) in conds and ("target", False) in conds, "dot_product: no target index",
-                      "dot_product branch condition changed", key="lt dot")
-    fc = [c for c in calls_in(fn) if call_name(c) == "format_libtensor_contraction"]
-    ok = len(fc) == 1 and U(kwarg(fc[0], "contracted")) == "contraction.contracted" and U(kwarg(fc[0], "target")) == "target"
-    ctx.check(rule, fn, ok, "libtensor gets the contraction's summed indices", "libtensor call changed", key="lt call")
-    nm = [a for a in walk_fn(fn) if isinstance(a, ast.Assign) and U(a.targets[0]) == "name" and "'|'.join" in U(a.value)]
-    ctx.check(rule, fn, len(nm) == 1 and U(nm[0].value).strip("f'\"") == "{name}({'|'.join((idx.name for idx in indices))})",
-              "libtensor operand: name(i|j|...)", "libtensor operand format changed", key="lt operand")
+    outs = sx.run(lt, lambda: dict(tensors=["A()", "B()"], factors=[], target="", contracted=()))
+    ctx.check(rule, lt, refused(outs), "libtensor: product of index-free tensors refused",
+              f"libtensor: tensors without target and contracted indices are emitted: {outs}", key="libtensor no indices")
+    # the einsum formatter on its own (public helper): table incl. the bare-tensor shortcut
+    es = ctx.model.fn(GC + "format_einsum_contraction")
+    for tensors, factors, indices, target in ((["A"], [], ["ia"], "ia"), (["A"], [], ["ai"], "ia"), (["A"], [], ["ii"], "i"),
+                                              (["A"], ["f"], ["ia"], ""), (["A", "B"], ["f", "g"], ["ij", "ja"], "ia"),
+                                              ([], ["f", "g"], [], ""), (["A"], [], ["iaia"], "ia"), (["A"], [], ["ij"], "ji")):
+        sx = make_sx(ctx, "format_einsum_contraction")
+        outs = sx.run(es, lambda: dict(tensors=list(tensors), factors=list(factors), indices=list(indices), target=target))
+        key = f"einsum table {tensors} {factors} {indices}->{target}"
+        text, why = concrete(outs)
+        if text is None:
+            ctx.bad(rule, es, f"{key}: {why}", key=key)
+            continue
+        sp = lambda s: "".join("o" if ch in "ijkl" else "v" for ch in s)
+        env = em.Env({t: (("tensor", t), sp(ix)) for t, ix in zip(tensors, indices)}, {}, {f: em.value_of(f, ()) for f in factors})
+        tgt = [(ch, sp(ch)) for ch in target]
+        got, err = emitted_value(text, env, "einsum", tgt)
+        pref = 1.0
+        for f in factors:
+            pref *= em.value_of(f, ())
+        want = em.product_value([(("tensor", t), [(ch, sp(ch)) for ch in ix]) for t, ix in zip(tensors, indices)], tgt, pref)
+        d = None if err else em.first_difference(got, want)
+        ctx.check(rule, es, not err and d is None, f"{key}: `{text}`",
+                  f"{key}: emitted `{text}` " + (f"is not executable: {err}" if err else
+                                                 f"differs at {d[0]}: {d[1]} instead of {d[2]}" if d else ""), key=key)
 
+
+# ------------------------------------------------------------------------------- R17b
 
 def r17b(ctx):
     rule = "R17b"
-    for name in ("format_contraction", "format_scaling_comment", "format_prefactor"):
+    w = World()
+    cname = Names(ctx.model)
+    i, j, a = w("ija")
+    c = contraction(cname, 70, ["A_oo", "B_ov"], [(i, j), (j, a)], (i, a))
+    term = term_rec(w, SNum(2), [], [("A", (i, j), 1), ("B", (j, a), 1)])
+    scen = {"format_contraction": lambda be: dict(contraction=c, contraction_cache={}, backend=be),
+            "format_scaling_comment": lambda be: dict(term=term, contractions=[c], backend=be),
+            "format_prefactor": lambda be: dict(term=term, backend=be)}
+    for name, args in scen.items():
         fn = ctx.model.fn(GC + name)
-        chains = [n for n in walk_fn(fn) if isinstance(n, ast.If) and U(n.test) == "backend == 'einsum'"
-                  and not (isinstance(n._parent, ast.If) and n in n._parent.orelse)]
-        n_ok = 0
-        for ch in chains:
-            node = ch
-            while len(node.orelse) == 1 and isinstance(node.orelse[0], ast.If):
-                node = node.orelse[0]
-            tail = node.orelse
-            ends = bool(tail) and isinstance(tail[-1], ast.Raise) and "NotImplementedError" in U(tail[-1])
-            tests = []
-            n2 = ch
-            while True:
-                tests.append(U(n2.test))
-                if len(n2.orelse) == 1 and isinstance(n2.orelse[0], ast.If):
-                    n2 = n2.orelse[0]
-                else:
-                    break
-            if "backend == 'libtensor'" in tests and ends:
-                n_ok += 1
-                ctx.ok(rule, ch, f"{name}: einsum / libtensor / NotImplementedError")
-            elif "backend == 'libtensor'" in tests:
-                ctx.bad(rule, ch, f"{name}: backend dispatch does not end in NotImplementedError", key=f"{name} exhaustive")
-        # format_contraction's first chain is elif inside the cache test: look for the final dispatch too
-        any_raise = [n for n in walk_fn(fn) if isinstance(n, ast.Raise) and "NotImplementedError" in U(n)
-                     and ("backend == 'einsum'", False) in conditions(n) and ("backend == 'libtensor'", False) in conditions(n)]
-        ctx.check(rule, fn, bool(any_raise), f"{name}: unknown backend refused", f"{name}: unknown backends are not refused",
-                  key=f"{name} refuse")
+        for be in ("fortran", "", "Einsum"):
+            sx = make_sx(ctx, name)
+            outs = sx.run(fn, lambda: args(be))
+            ctx.check(rule, fn, refused(outs), f"{name}: backend {be!r} refused with NotImplementedError",
+                      f"{name}: the unknown backend {be!r} is not refused: {outs}", key=f"{name} refuse {be!r}")
+        for be in ("einsum", "libtensor"):
+            sx = make_sx(ctx, name)
+            outs = sx.run(fn, lambda: args(be))
+            text, why = concrete(outs)
+            ok = text is not None
+            if ok and name == "format_scaling_comment":
+                ok = text.startswith(em.COMMENT[be]) and "\n" not in text
+                why = f"returns `{text}`, which is not a one-line {be} comment"
+            ctx.check(rule, fn, ok, f"{name}: backend {be} served", f"{name}({be}) {why}", key=f"{name} serve {be}")
     for name in ("_format_python_prefactor", "_format_cpp_prefactor"):
         fn = ctx.model.fn(GC + name)
-        last = fn.body[-1]
-        ctx.check(rule, fn, isinstance(last, ast.Raise) and "NotImplementedError" in U(last), f"{name}: unknown prefactor kinds refused",
-                  f"{name}: falls through without NotImplementedError", key=f"{name} refuse")
+        for label, num in (("pi", SNum(1, 1, "pi")), ("2*pi", SNum(2, 1, "pi")), ("cube root", CubeRoot())):
+            sx = make_sx(ctx, name)
+            outs = sx.run(fn, lambda: dict(prefactor=num))
+            ctx.check(rule, fn, refused(outs), f"{name}: {label} refused with NotImplementedError",
+                      f"{name}: a prefactor of an unknown kind ({label}) is not refused: {outs}", key=f"{name} refuse {label}")
 
+
+class CubeRoot(SNum):
+    """2**(1/3): a Pow that is not a square root."""
+
+    def __init__(self):
+        super().__init__(1)
+        self.other = "2**(1/3)"
+
+    def value(self):
+        return 2 ** (1 / 3)
+
+    def kind(self):
+        return "Pow"
+
+    def sx_getattr(self, sx, attr, node):
+        if attr == "args":
+            return (2, Fraction(1, 3))
+        return super().sx_getattr(sx, attr, node)
+
+
+# ------------------------------------------------------------------------------- R17c
 
 def r17c(ctx):
     rule = "R17c"
-    n = 0
-    for name in ("translate_adcc_names", "translate_libadc_names"):
+    w = World()
+    i, j, a, b, k = w("ijabk")
+    table = {
+        "translate_adcc_names": [
+            (f"{ERI}_oovv", (i, j, a, b), "hf.oovv"), (f"{ERI}_ovov", (i, a, j, b), "hf.ovov"), (f"{ERI}_oo", (i, j), "hf.oo"),
+            (f"{FOCK}_ov", (i, a), "hf.fov"), (f"{FOCK}_oo", (i, j), "hf.foo"),
+            (f"{ERI}x_oo", (i, j), f"{ERI}x_oo"), (f"{ERI}{ERI}_oovv", (i, j, a, b), f"{ERI}{ERI}_oovv"),
+            (f"{FOCK}2_ov", (i, a), f"{FOCK}2_ov"), (f"x{ERI}_oo", (i, j), f"x{ERI}_oo"), (f"{ERI}_oo_x", (i, j), f"{ERI}_oo_x"),
+            ("V_oovv", (i, j, a, b), "V_oovv"), ("f_ov", (i, a), "f_ov"), ("A_ov", (i, a), "A_ov"), ("t2eri_3", (i, j, k, a), "t2eri_3"),
+            (ERI, (), ERI)],
+        "translate_libadc_names": [
+            (f"{ERI}_oovv", (i, j, a, b), "i_oovv"), (f"{ERI}_ovov", (i, a, j, b), "i_ovov"),
+            (f"{ERI}x_oo", (i, j), f"{ERI}x_oo"), (f"{ERI}{ERI}_oovv", (i, j, a, b), f"{ERI}{ERI}_oovv"), (f"x{ERI}_oo", (i, j), f"x{ERI}_oo"),
+            (f"{FOCK}_ov", (i, a), f"{FOCK}_ov"), ("V_oovv", (i, j, a, b), "V_oovv"), ("A_ov", (i, a), "A_ov"),
+            ("t2eri_3", (i, j, k, a), "pi3"), ("t2eri_5", (i, j, k, a), "pi5")],
+    }
+    for name, rows in table.items():
         fn = ctx.model.fn(GC + name)
-        for c in calls_in(fn):
-            if call_name(c) in ("startswith", "endswith") and c.args and "tensor_names." in U(c.args[0]):
-                n += 1
-                ctx.bad(rule, c, f"{name}: tensor `{U(c.args[0])}` is recognised by prefix; every tensor whose name merely starts "
-                        "with the configured name is emitted as that Hamiltonian block", key=f"{name} {U(c.args[0])}")
-        tests = [t for n2 in walk_fn(fn) if isinstance(n2, ast.If) for t in [U(n2.test)] if "tensor_names." in t]
-        for t in tests:
-            if "startswith" in t or "endswith" in t:
-                continue
-            ok = " == " in t
-            ctx.check(rule, fn, ok, f"{name}: `{t}` compares for equality", f"{name}: `{t}` is not an equality test", key=f"{name} {t}")
-    # positive fixture
-    fix = ast.parse("def f(name):\n    if name.startswith(tensor_names.eri):\n        return 1\n")
-    if not any(call_name(c) == "startswith" and "tensor_names." in U(c.args[0]) for c in ast.walk(fix) if isinstance(c, ast.Call)):
-        raise AnalysisError("R17c fixture")
-    for name, want in (("translate_adcc_names", {"tensor_names.eri": "f'hf.{space}'", "tensor_names.fock": "f'hf.f{space}'"}),
-                       ("translate_libadc_names", {"tensor_names.eri": "f'i_{space}'"})):
-        fn = ctx.model.fn(GC + name)
-        got = {}
-        for r in common.returns_of(fn):
-            for t, pol in conditions(r):
-                for k in want:
-                    if pol and k in t:
-                        got[k] = U(r.value)
-        ctx.check(rule, fn, got == want, f"{name}: Hamiltonian blocks named by their space", f"{name}: translation table is {got}",
-                  key=f"{name} table")
-        sp = [a for a in walk_fn(fn) if isinstance(a, ast.Assign) and U(a.targets[0]) == "space"]
-        ctx.check(rule, fn, bool(sp) and all(U(a.value) == "''.join((s.space[0] for s in indices))" for a in sp),
-                  f"{name}: block = spaces of the operand's indices in order", f"{name}: block string changed", key=f"{name} space")
-        last = common.returns_of(fn)[-1]
-        ctx.check(rule, fn, U(last.value) == "name", f"{name}: other names unchanged", f"{name}: default return changed", key=f"{name} default")
+        for tname, ix, want in rows:
+            sx = make_sx(ctx, name)
+            outs = sx.run(fn, lambda: dict(name=tname, indices=ix))
+            got, why = concrete(outs)
+            ctx.check(rule, fn, got == want, f"{name}({tname}, {spaces_of(ix)}) = {want}",
+                      f"{name}: the tensor {tname} with indices in {spaces_of(ix) or 'no space'} (configured eri={ERI}, fock={FOCK}) is emitted as "
+                      f"`{got}`" + (f" ({why})" if why else "") + f", expected `{want}`", key=f"{name} {tname}")
+
+
+# ------------------------------------------------------------------------------- R17d
+
+def obj_rec(w, name, indices, exponent, kind="tensor"):
+    """One Obj of a term: a tensor / delta / symbol with an exponent."""
+    sp = spaces_of(indices)
+    classes = {"tensor": ("SymbolicTensor", "AntiSymmetricTensor", "TensorSymbol"), "delta": ("KroneckerDelta",),
+               "symbol": ("Symbol",), "number": ()}[kind]
+    base = Rec(None, f"{name}{''.join(i.label for i in indices)}", classes, name=name, idx=tuple(indices),
+               is_number=(kind == "number"))
+    long = f"d_{sp}" if kind == "delta" else (f"t2eri_{name[5:]}" if name.startswith("t2eri") else f"{name}_{sp}")
+    sympy = Rec(None, f"{base.label}^{exponent}", ("Pow",) if exponent != 1 else classes, is_number=(kind == "number"),
+                args=(base, exponent))
+    return Rec("expr_container:Obj", f"obj {base.label}^{exponent}", base=base, exponent=exponent, base_and_exponent=(base, exponent),
+               idx=tuple(indices), space=sp, spin="".join(i.attrs["spin"] for i in indices), sympy=sympy,
+               longname=lambda sx, a, kw: long if kind in ("tensor", "delta") else None, _kind=kind, _long=long)
+
+
+def term_rec(w, pref, symbols, tensors, with_number_obj=True):
+    """A Term record: prefactor, symbols [(name, exponent)], tensors [(name, indices, exponent)] (name 'delta' = delta)."""
+    objs = []
+    if with_number_obj:
+        n = obj_rec(w, str(pref), (), 1, "number")
+        objs.append(n)
+    for s, e in symbols:
+        objs.append(obj_rec(w, s, (), e, "symbol"))
+    for t, ix, e in tensors:
+        objs.append(obj_rec(w, t, ix, e, "delta" if t == "delta" else "tensor"))
+    every = []
+    for o in objs:
+        for i in o.attrs["idx"]:
+            if i not in every:
+                every.append(i)
+    return Rec("expr_container:Term", f"term {pref}", prefactor=pref, objects=tuple(objs), idx=tuple(every),
+               _symbols=list(symbols), _tensors=list(tensors))
+
+
+def symbol_value(name):
+    return 1.0 + (em.value_of(("symbol", name), ()) % 5) / 4.0
+
+
+PREFACTORS = [SNum(1), SNum(-1), SNum(2), SNum(-3), SNum(12), SNum(Fraction(1, 2)), SNum(Fraction(-1, 2)), SNum(Fraction(1, 4)),
+              SNum(Fraction(-1, 4)), SNum(Fraction(3, 2)), SNum(Fraction(-2, 3)), SNum(Fraction(1, 3)), SNum(Fraction(-5, 12)),
+              SNum(1, 2), SNum(-1, 2), SNum(Fraction(1, 2), 2), SNum(Fraction(-1, 2), 2), SNum(Fraction(1, 3), 3), SNum(2, 6),
+              SNum(Fraction(-3, 4), 2)]
 
 
 def r17d(ctx):
     rule = "R17d"
+    w = World()
     fn = ctx.model.fn(GC + "format_prefactor")
-    sg = {}
-    for a in walk_fn(fn):
-        if isinstance(a, ast.Assign) and U(a.targets[0]) == "sign":
-            cs = conditions(a)
-            sg["neg" if ("number_pref < 0", True) in cs else "pos" if ("number_pref < 0", False) in cs else "?"] = U(a.value)
-    ctx.check(rule, fn, sg == {"neg": "'-'", "pos": "'+'"}, "sign '-' iff the prefactor is negative", f"sign table {sg}", key="sign")
-    ng = [a for a in walk_fn(fn) if isinstance(a, ast.AugAssign) and U(a.target) == "number_pref"]
-    ok = len(ng) == 1 and U(ng[0].value) == "-1" and isinstance(ng[0].op, ast.Mult) and ("number_pref < 0", True) in conditions(ng[0])
-    ctx.check(rule, fn, ok, "magnitude printed after the sign", "negation of the negative prefactor changed", key="negate")
-    npf = [a for a in common.assigns_to(fn, "number_pref") if isinstance(a, ast.Assign)]
-    ctx.check(rule, fn, bool(npf) and U(npf[0].value) == "term.prefactor", "numeric prefactor of the term", "prefactor source changed",
-              key="pref source")
-    sy = [a for a in common.assigns_to(fn, "symbol_pref")]
-    ok = False
-    elt = None
-    if len(sy) == 1 and isinstance(sy[0].value, ast.Call) and call_name(sy[0].value) == "join" and sy[0].value.args \
-            and isinstance(sy[0].value.args[0], (ast.ListComp, ast.GeneratorExp)):
-        comp = sy[0].value.args[0]
-        gens = comp.generators
-        elt = U(comp.elt)
-        ok = len(gens) == 2 and U(gens[0].iter) == "term.objects" and [U(i) for i in gens[0].ifs] == ["isinstance(obj.base, Symbol)"] \
-            and U(gens[1].iter) == "range(obj.exponent)" and U(sy[0].value.func.value) == "' * '"
-    ctx.check(rule, fn, ok, "symbols printed exponent-many times", "symbolic prefactor changed", key="symbols")
-    # Obj.name is defined for tensors only (None otherwise): under the Symbol guard it is None and join() fails
-    nm = ctx.model.fn("expr_container:Obj.name")
-    tensor_only = [U(n.test) for n in walk_fn(nm) if isinstance(n, ast.If)] == ["isinstance(self.base, SymbolicTensor)"] \
-        and len(common.returns_of(nm)) == 1
-    ctx.check(rule, fn, not (elt == "obj.name" and tensor_only), "symbol printed by the symbol's own name",
-              "symbolic prefactors are printed with `obj.name`, which Obj.name defines for tensors only (None for a Symbol): "
-              "' * '.join([None]) raises TypeError for every expression with a symbolic prefactor", key="symbol name source")
-    rets = {("sym" if ("symbol_pref", True) in conditions(r) else "nosym"): U(r.value) for r in common.returns_of(fn)}
-    ctx.check(rule, fn, rets == {"sym": "f'{sign} {number_pref} * {symbol_pref}'", "nosym": "f'{sign} {number_pref}'"},
-              "sign, number, symbols", f"returns {rets}", key="returns")
+    i, a = w("ia")
+    n = 0
+    for backend in ("einsum", "libtensor"):
+        for pref in PREFACTORS:
+            for symbols in ([], [("c", 1)], [("c", 2), ("z", 1)]):
+                if symbols and pref not in PREFACTORS[:6] + PREFACTORS[13:15]:
+                    continue
+                term = term_rec(w, pref, symbols, [("A", (i, a), 1)])
+                sx = make_sx(ctx, "format_prefactor")
+                outs = sx.run(fn, lambda: dict(term=term, backend=backend))
+                key = f"{backend} {pref} {symbols}"
+                text, why = concrete(outs)
+                if text is None:
+                    ctx.bad(rule, fn, f"format_prefactor({pref}, symbols {symbols}, {backend}) {why}", key=key)
+                    continue
+                want = pref.value()
+                for s, e in symbols:
+                    want *= symbol_value(s) ** e
+                env = em.Env({}, {s: symbol_value(s) for s, _ in symbols}, {})
+                try:
+                    got = em.run_expression(text, env, backend)
+                    err = None if isinstance(got, (int, float)) else "not a number"
+                except em.EvalError as e:
+                    got, err = None, str(e)
+                n += 1
+                ok = err is None and abs(got - want) <= 1e-9 * (1 + abs(want))
+                ctx.check(rule, fn, ok, f"{key}: `{text}`",
+                          f"format_prefactor: the prefactor {pref}{''.join(f' * {s}^{e}' for s, e in symbols)} is emitted for {backend} as "
+                          f"`{text}`, which " + (f"is not executable: {err}" if err else f"evaluates to {got} instead of {want}"), key=key)
+    ctx.floor(rule, "prefactors executed", n, 40)
+    # permutation operators
     ps = ctx.model.fn(GC + "format_perm_symmetry")
-    c = [a for a in walk_fn(ps) if isinstance(a, ast.Assign) and U(a.targets[0]) == "contrib"]
-    ok = len(c) == 1 and U(c[0].value) == "['+ '] if factor == 1 else ['- ']"
-    ctx.check(rule, ps, ok, "'+ ' iff factor +1, '- ' iff -1", f"permutation sign is `{U(c[0].value) if c else None}`", key="perm sign")
-    asr = [n for n in walk_fn(ps) if isinstance(n, ast.Assert)]
-    ctx.check(rule, ps, any(U(a.test) == "factor in [1, -1]" for a in asr), "only factors +-1", "factor assertion removed", key="perm assert")
-    lp = [n for n in walk_fn(ps) if isinstance(n, ast.For) and U(n.iter) == "perm_symmetry"]
-    ctx.check(rule, ps, len(lp) == 1 and U(lp[0].target) == "(permutations, factor)", "every (permutations, factor) pair printed",
-              "iteration over the symmetry changed", key="perm loop")
-    ini = [a for a in common.assigns_to(ps, "perm_sym")]
-    ctx.check(rule, ps, len(ini) == 1 and U(ini[0].value) == "['1']", "identity first", "identity operator missing", key="perm identity")
-    py = ctx.model.fn(GC + "_format_python_prefactor")
-    cpp = ctx.model.fn(GC + "_format_cpp_prefactor")
+    i, j, a, b = w("ijab")
+    P = {"ij": permutation(i, j), "ab": permutation(a, b), "ia": permutation(i, a)}
+    tokens = {perm_token(ctx, p): tuple(x.attrs["name"] for x in p.attrs["_items"]) for p in P.values()}
+    if len(tokens) != len(P):
+        raise AnalysisError("C17: permutation operators are not distinguishable in the emitted text")
+    target = idx_pairs((i, j, a, b))
+    table = {p: em.value_of("sym", p) for p in em.positions([em.DIM[s] for _, s in target])}
+    for label, sym in (("none", ()), ("-P_ij", (((P["ij"],), -1),)), ("+P_ij", (((P["ij"],), 1),)),
+                       ("-P_ij -P_ab +P_ijP_ab", (((P["ij"],), -1), ((P["ab"],), -1), ((P["ij"], P["ab"]), 1))),
+                       ("+P_ijP_ab", (((P["ij"], P["ab"]), 1),)), ("-P_ab +P_ij", (((P["ab"],), -1), ((P["ij"],), 1)))):
+        sx = make_sx(ctx, "format_perm_symmetry")
+        outs = sx.run(ps, lambda: dict(perm_symmetry=sym))
+        text, why = concrete(outs)
+        key = f"perm {label}"
+        if text is None:
+            ctx.bad(rule, ps, f"format_perm_symmetry({label}) {why}", key=key)
+            continue
+        want = em.apply_operator([(1.0, [])] + [(float(f), [tuple(x.attrs["name"] for x in p.attrs["_items"]) for p in perms]) for perms, f in sym],
+                                 table, target)
+        try:
+            got = em.apply_operator(em.parse_operator(text, tokens), table, target)
+            err = None
+        except em.EvalError as e:
+            got, err = None, str(e)
+        d = None if err else em.first_difference(got, want)
+        ctx.check(rule, ps, not err and d is None, f"{key}: `{text}`",
+                  f"format_perm_symmetry: the symmetry {label} is emitted as `{text}`, which " +
+                  (f"is not an operator: {err}" if err else "does not denote 1 + sum factor * prod P"), key=key)
+    for f in (2, 0, -2):
+        sx = make_sx(ctx, "format_perm_symmetry")
+        outs = sx.run(ps, lambda: dict(perm_symmetry=(((P["ij"],), f),)))
+        ctx.check(rule, ps, bool(outs) and all(o.kind == "raise" for o in outs), f"factor {f} refused",
+                  f"format_perm_symmetry: a symmetry with the factor {f} is printed as a sign: {outs}", key=f"perm factor {f}")
 
-    def table(fn):
-        out = {}
-        for r in common.returns_of(fn):
-            conds = sorted(t for t, pol in conditions(r) if pol)
-            out[conds[-1] if conds else "?"] = U(r.value)
-        return out
-    tp, tc = table(py), table(cpp)
-    ctx.check(rule, py, tp.get("isinstance(prefactor, Rational)") == "f'{prefactor.p} / {prefactor.q}'",
-              "python: rational printed p / q", f"python rational format {tp.get('isinstance(prefactor, Rational)')}", key="py rational")
-    ctx.check(rule, cpp, tc.get("isinstance(prefactor, Rational)") == "f'{float(prefactor.p)} / {float(prefactor.q)}'",
-              "c++: rational printed p / q as floats", f"c++ rational format {tc.get('isinstance(prefactor, Rational)')}", key="cpp rational")
-    ctx.check(rule, py, any("sqrt({prefactor.args[0]})" in v for v in tp.values()), "python: sqrt(n)", "python sqrt format changed", key="py sqrt")
-    ctx.check(rule, cpp, any("constants::sq{prefactor.args[0]}" in v for v in tc.values()), "c++: constants::sqN", "c++ sqrt format changed",
-              key="cpp sqrt")
-    for f, t in ((py, tp), (cpp, tc)):
-        sq = [k for k in t if "prefactor.args[1] == 0.5" in k]
-        ctx.check(rule, f, bool(sq) or any("args[1] == 0.5" in U(n.test) for n in walk_fn(f) if isinstance(n, ast.If)),
-                  f"{f.name}: square roots recognised by exponent 1/2", f"{f.name}: sqrt test changed", key=f"{f.name} sqrt test")
-        mul = [v for k, v in t.items() if "isinstance(prefactor, Mul)" in k]
-        ctx.check(rule, f, bool(mul) and f"' * '.join(({f.name}(pref) for pref in prefactor.args))" == mul[0],
-                  f"{f.name}: products printed factor by factor", f"{f.name}: Mul format changed", key=f"{f.name} mul")
+
+# ------------------------------------------------------------------------------- R17e
+
+def term_value(term, target):
+    ops = []
+    for t, ix, e in term.attrs["_tensors"]:
+        sp = spaces_of(ix)
+        key = ("delta", sp) if t == "delta" else operand_key(f"t2eri_{t[5:]}" if t.startswith("t2eri") else f"{t}_{sp}", sp)
+        ops.extend([(key, idx_pairs(ix))] * e)
+    pref = term.attrs["prefactor"].value()
+    for s, e in term.attrs["_symbols"]:
+        pref *= symbol_value(s) ** e
+    return em.product_value(ops, target, pref)
+
+
+def term_operands(term):
+    out = []
+    for o in term.attrs["objects"]:
+        if o.attrs["_kind"] in ("tensor", "delta"):
+            out.extend([(o.attrs["_long"], o.attrs["idx"])] * o.attrs["exponent"])
+    return out
+
+
+class Pipeline:
+    """One end-to-end scenario of generate_code: the symmetry classes and the schemes are given (black boxes), the
+    calls are recorded."""
+
+    def __init__(self, ctx, w, cname, target_str, spin, classes, schemes, tgt, **opts):
+        self.ctx, self.w, self.cname = ctx, w, cname
+        self.target_str, self.spin, self.classes, self.schemes, self.opts = target_str, spin, classes, schemes, opts
+        self.tgt = tgt
+        self.calls = []
+        self.made = 0
+        self.optimize = True
+        self.expr = Rec("expr_container:Expr", "EXPR", terms=tuple(t for _, ts in classes for t in ts))
+
+    def hooks(self):
+        m = self.ctx.model
+
+        def rec(qual, short):
+            fn = m.fn(qual)
+
+            def hook(sx, a, kw):
+                b = sx.bind(fn, a, kw, fill_defaults=True)
+                self.calls.append((short, b))
+                if short == "exploit_perm_sym":
+                    return {sym: Rec("expr_container:Expr", f"class{k}", terms=tuple(ts)) for k, (sym, ts) in enumerate(self.classes)}
+                if short == "optimize_contractions":
+                    return list(self.schemes[id(b.get("term"))])
+                # the unoptimised scheme is built by the library's own function (evaluated), on top of the index
+                # factory and the Contraction constructor below
+                from ..symex import Func
+                return sx._invoke(Func(fn, [], fn._module, fn._qual), a, kw, None)
+            return hook
+
+        def get_symbols(sx, a, kw):
+            b = sx.bind(m.fn("indices:get_symbols"), a, kw, fill_defaults=True)
+            names, spins = b.get("indices"), b.get("spins")
+            if not isinstance(names, str) or not (spins is None or isinstance(spins, str)):
+                return NotImplemented
+            return list(self.w(names, spins))
+
+        def new_contraction(sx, a, kw):
+            b = sx.bind(m.fn(CO + "Contraction.__init__"), [None] + list(a), kw, fill_defaults=True)
+            self.made += 1
+            try:
+                names, indices, tt = list(b["names"]), [tuple(ix) for ix in b["indices"]], tuple(b["term_target_indices"])
+            except (TypeError, KeyError):
+                raise AnalysisError(f"C17: Contraction(...) built from {b}")
+            return contraction(self.cname, 5000 + self.made, names, indices, tt)
+        return {"exploit_perm_sym": rec("sort_expr:exploit_perm_sym", "exploit_perm_sym"),
+                "optimize_contractions": rec(OC + "optimize_contractions", "optimize_contractions"),
+                "unoptimized_contraction": rec(OC + "unoptimized_contraction", "unoptimized_contraction"),
+                "get_symbols": get_symbols, "Contraction": new_contraction}
+
+    def run(self, backend, optimize=True):
+        self.calls = []
+        self.optimize = optimize
+        sx = make_sx(self.ctx, "generate_code", hooks=self.hooks())
+        args = dict(expr=self.expr, target_indices=self.target_str, target_spin=self.spin, backend=backend,
+                    optimize_contraction_scheme=optimize)
+        args.update(self.opts)
+        return sx.run(self.ctx.model.fn(GC + "generate_code"), lambda: dict(args))
+
+
+def pipelines(ctx, w, cname):
+    i, j, k, l, a, b, c = w("ijklabc")
+    P = {"ij": permutation(i, j), "ab": permutation(a, b)}
+    out = []
+    # 1: r_ijab, two symmetry classes, nested schemes, eri/fock blocks, symbols, sqrt prefactor
+    t1 = term_rec(w, SNum(Fraction(-1, 2)), [("c", 2)], [(ERI, (i, j, a, b), 1)])
+    t2 = term_rec(w, SNum(2), [], [("A", (i, k), 1), ("B", (k, l), 1), ("C", (l, j, a, b), 1)])
+    t3 = term_rec(w, SNum(Fraction(1, 2), 2), [], [(FOCK, (k, c), 1), ("X", (k, c), 1), ("Y", (i, j, a, b), 1)])
+    tgt = (i, j, a, b)
+    c20 = contraction(cname, 20, ["A_oo", "B_oo"], [(i, k), (k, l)], tgt)
+    c21 = contraction(cname, 21, [cname(20), "C_oovv"], [c20.attrs["target"], (l, j, a, b)], tgt)
+    c30 = contraction(cname, 30, [f"{FOCK}_ov", "X_ov"], [(k, c), (k, c)], tgt)
+    c31 = contraction(cname, 31, [cname(30), "Y_oovv"], [(), (i, j, a, b)], tgt)
+    c10 = contraction(cname, 10, [f"{ERI}_oovv"], [(i, j, a, b)], tgt)
+    out.append(("ijab nested", Pipeline(
+        ctx, w, cname, "ij,ab", None,
+        [((((P["ij"],), -1), ((P["ab"],), -1), ((P["ij"], P["ab"]), 1)), [t1, t2]), ((), [t3])],
+        {id(t1): [c10], id(t2): [c20, c21], id(t3): [c30, c31]}, tgt,
+        bra_ket_sym=1, antisymmetric_result_tensor=False, max_itmd_dim=3, max_n_simultaneous_contracted=2)))
+    # 2: requested order differs from the canonical one, spin labelled, three-step scheme
+    ia, aa_ = w("ia", "aa")
+    jb, bb = w("jb", "bb")
+    kk, cc = w("kc", "aa")
+    tgt2 = (aa_, ia, bb, jb)
+    t4 = term_rec(w, SNum(-1), [("z", 1)], [("A", (ia, kk), 1), ("B", (kk, cc), 1), ("C", (cc, aa_), 1), ("D", (jb, bb), 1)])
+    d0 = contraction(cname, 40, ["A_oo", "B_ov"], [(ia, kk), (kk, cc)], tgt2)
+    d1 = contraction(cname, 41, [cname(40), "C_vv"], [d0.attrs["target"], (cc, aa_)], tgt2)
+    d2 = contraction(cname, 42, [cname(41), "D_ov"], [d1.attrs["target"], (jb, bb)], tgt2)
+    t5 = term_rec(w, SNum(3), [], [("E", (ia, aa_, jb, bb), 1)])
+    e0 = contraction(cname, 43, ["E_ovov"], [(ia, aa_, jb, bb)], tgt2)
+    out.append(("aibj spin", Pipeline(ctx, w, cname, "ai,bj", "aa,bb", [((), [t4, t5])], {id(t4): [d0, d1, d2], id(t5): [e0]}, tgt2,
+                                      bra_ket_sym=-1, antisymmetric_result_tensor=True, max_itmd_dim=4,
+                                      max_n_simultaneous_contracted=3)))
+    # 3: a number: pure prefactor terms and a full contraction
+    t6 = term_rec(w, SNum(Fraction(3, 2)), [("c", 1)], [])
+    t7 = term_rec(w, SNum(-2), [], [("A", (i, a), 1), ("B", (i, a), 1)])
+    t8 = term_rec(w, SNum(1, 3), [], [])
+    f0 = contraction(cname, 50, ["A_ov", "B_ov"], [(i, a), (i, a)], ())
+    out.append(("scalar", Pipeline(ctx, w, cname, "", None, [((), [t6, t7, t8])], {id(t7): [f0]}, ())))
+    # 4: an exponent: the only closed scheme is the hyper-contraction
+    t9 = term_rec(w, SNum(Fraction(1, 4)), [], [("A", (i, a), 2), ("B", (a, b), 1)])
+    g0 = contraction(cname, 60, ["A_ov", "A_ov", "B_vv"], [(i, a), (i, a), (a, b)], (i, b))
+    out.append(("exponent", Pipeline(ctx, w, cname, "ib", None, [((), [t9])], {id(t9): [g0]}, (i, b),
+                                     max_itmd_dim=7, max_n_simultaneous_contracted=5)))
+    return out
+
+
+def perm_token(ctx, p):
+    """The text the library prints for one permutation operator (its own __str__, evaluated)."""
+    sx = make_sx(ctx, "Permutation.__str__")
+    s, why = concrete(sx.run(ctx.model.fn("symmetry:Permutation.__str__"), lambda: dict(self=p)))
+    if s is None:
+        raise AnalysisError(f"C17: str(Permutation) {why}")
+    return s
+
+
+def operator_of(sym):
+    return [(1.0, [])] + [(float(f), [tuple(x.attrs["name"] for x in p.attrs["_items"]) for p in perms]) for perms, f in sym]
+
+
+def closed_scheme(cname, ident, operands, tgt):
+    """A valid contraction scheme by the documented rules: contract the first two objects of the pool, pulling in every
+    object that still carries an index the group would sum (closure), until one object is left."""
+    pool = list(operands)
+    scheme = []
+    while True:
+        group = [0, 1] if len(pool) > 1 else [0]
+        while True:
+            count = {}
+            for g in group:
+                for i in pool[g][1]:
+                    count[i] = count.get(i, 0) + 1
+            summed = {i for i, n in count.items() if n > 1 and i not in tgt}
+            more = [k for k in range(len(pool)) if k not in group and any(i in summed for i in pool[k][1])]
+            if not more:
+                break
+            group = sorted(group + more)
+        c = contraction(cname, ident + len(scheme), [pool[g][0] for g in group], [pool[g][1] for g in group], tgt)
+        scheme.append(c)
+        pool = [(c.attrs["contraction_name"], c.attrs["target"])] + [p for k, p in enumerate(pool) if k not in group]
+        if len(pool) == 1:
+            return scheme
+
+
+def random_pipelines(ctx, w, cname, count, seed=17):
+    """Pseudo-random terms (2-4 tensors, 0-3 target indices, 1-3 summed indices, exponents, eri/fock blocks, symbols,
+    rational and sqrt prefactors, permutation classes over target pairs) with a closed scheme each."""
+    import os
+    import random
+    rnd = random.Random(seed + int(os.environ.get("VERIF_SEED", "0") or 0))
+    out = []
+    for k in range(count):
+        occ, virt = list(w("ijkl")), list(w("abcd"))
+        pool = occ + virt
+        rnd.shuffle(pool)
+        nt, ns = rnd.randint(0, 3), rnd.randint(1, 3)
+        tgt, summed = pool[:nt], pool[nt:nt + ns]
+        rnd.shuffle(tgt)
+        terms = []
+        schemes = {}
+        for tno in range(rnd.randint(1, 3)):
+            ntens = rnd.randint(2, 4)
+            slots = [[] for _ in range(ntens)]
+            for i in tgt:
+                for pos in rnd.sample(range(ntens), rnd.choice((1, 1, 2))):
+                    slots[pos].append(i)
+            for i in summed:
+                for pos in rnd.sample(range(ntens), rnd.choice((2, 2, 3)) if ntens > 2 else 2):
+                    slots[pos].append(i)
+            tensors = []
+            for pos, ix in enumerate(slots):
+                if not ix:
+                    ix = [rnd.choice(tgt)] if tgt else [summed[0]]
+                    if not tgt:
+                        slots[(pos + 1) % ntens].append(summed[0]) if summed[0] not in slots[(pos + 1) % ntens] else None
+                rnd.shuffle(ix)
+                sp = spaces_of(ix)
+                name = ERI if len(ix) == 4 and rnd.random() < 0.5 else FOCK if len(ix) == 2 and rnd.random() < 0.3 else "ABCD"[pos]
+                tensors.append((name, tuple(ix), 1))
+            if rnd.random() < 0.3:          # an exponent: the tensor occurs twice with the same indices
+                nm, ix, _ = tensors[0]
+                if all(i in tgt for i in ix):
+                    tensors[0] = (nm, ix, 2)
+            # every summed index has to occur at least twice (Einstein convention), else it would be a target index
+            cnt = {}
+            for _, ix, e in tensors:
+                for i in ix:
+                    cnt[i] = cnt.get(i, 0) + e
+            if any(cnt.get(i, 0) < 2 for i in summed) or any(i not in cnt for i in tgt) \
+                    or any(n_ == 1 for i, n_ in cnt.items() if i not in tgt):
+                continue
+            symbols = rnd.choice(([], [], [("c", 1)], [("c", 2), ("z", 1)]))
+            t = term_rec(w, rnd.choice(PREFACTORS), symbols, tensors)
+            terms.append(t)
+            schemes[id(t)] = closed_scheme(cname, 1000 + 20 * len(out) + 5 * tno, term_operands(t), tuple(tgt))
+        if not terms:
+            continue
+        classes = [((), terms)]
+        pairs = [(p, q) for p in tgt for q in tgt if p is not q and p.attrs["space"] == q.attrs["space"] and p.attrs["name"] < q.attrs["name"]]
+        if pairs and rnd.random() < 0.7:
+            p, q = pairs[0]
+            sym = (((permutation(p, q),), rnd.choice((1, -1))),)
+            classes = [(sym, terms[:1])] + ([((), terms[1:])] if terms[1:] else [])
+        tstr = "".join(i.attrs["name"] for i in tgt)
+        if len(tstr) > 1 and rnd.random() < 0.5:
+            tstr = tstr[:1] + "," + tstr[1:]
+        opts = {}
+        if rnd.random() < 0.5:
+            opts = dict(max_itmd_dim=rnd.randint(2, 6), max_n_simultaneous_contracted=rnd.randint(2, 4),
+                        bra_ket_sym=rnd.choice((0, 1, -1)), antisymmetric_result_tensor=rnd.random() < 0.5)
+        out.append((f"random {k}: " + " + ".join(" ".join(f"{n_}_{''.join(i.attrs['name'] for i in ix)}{'^%d' % e if e > 1 else ''}"
+                                                            for n_, ix, e in t.attrs["_tensors"]) for t in terms) + f" -> {tstr or 'number'}",
+                    Pipeline(ctx, w, cname, tstr, None, classes, schemes, tuple(tgt), **opts)))
+    return out
+
+
+def check_pipeline(ctx, rule, fn, label, pl):
+    """generate_code on one scenario, both backends, both scheme builders; returns the number of programs generated."""
+    n = 0
+    target = idx_pairs(pl.tgt)
+    # the value of the expression: sum over the classes of operator(sum of the terms)
+    want = None
+    ptok = {}
+    for sym, terms in pl.classes:
+        acc = None
+        for t in terms:
+            tv = term_value(t, target)
+            acc = tv if acc is None else {p: acc[p] + tv[p] for p in acc}
+        acc = em.apply_operator(operator_of(sym), acc, target)
+        want = acc if want is None else {p: want[p] + acc[p] for p in want}
+        for perms, _ in sym:
+            for p in perms:
+                ptok[perm_token(ctx, p)] = tuple(x.attrs["name"] for x in p.attrs["_items"])
+    for backend, optimize in (("einsum", True), ("libtensor", True), ("einsum", False), ("libtensor", False)):
+        key = f"{label} {backend}{'' if optimize else ' unoptimised'}"
+        n += 1
+        outs = pl.run(backend, optimize)
+        text, why = concrete(outs)
+        if text is None:
+            ctx.bad(rule, fn, f"generate_code[{key}] {why}", key=f"program {key}")
+            continue
+        # what the black boxes were asked
+        by = {}
+        for short, b in pl.calls:
+            by.setdefault(short, []).append(b)
+        sep_free = pl.target_str.replace(",", "")
+        spin_free = pl.spin.replace(",", "") if pl.spin is not None else None
+        ex = by.get("exploit_perm_sym", [])
+        want_ex = dict(expr=pl.expr, target_indices=pl.target_str, target_spin=pl.spin,
+                       bra_ket_sym=pl.opts.get("bra_ket_sym", 0),
+                       antisymmetric_result_tensor=pl.opts.get("antisymmetric_result_tensor", True))
+        got_ex = [{k: b.get(k) for k in want_ex} for b in ex]
+        ctx.check(rule, fn, got_ex == [want_ex], f"{key}: symmetry analysis of the expression with the given targets, spin, "
+                  "bra-ket symmetry and tensor class",
+                  f"generate_code[{key}]: exploit_perm_sym is called with {got_ex}, expected once with {want_ex}",
+                  key=f"exploit args {key}")
+        builder = "optimize_contractions" if optimize else "unoptimized_contraction"
+        other = "unoptimized_contraction" if optimize else "optimize_contractions"
+        want_b = []
+        for t in (t for _, ts in pl.classes for t in ts if t.attrs["idx"]):
+            d = dict(term=t, target_indices=sep_free, target_spin=spin_free)
+            if optimize:
+                d.update(max_itmd_dim=pl.opts.get("max_itmd_dim"),
+                         max_n_simultaneous_contracted=pl.opts.get("max_n_simultaneous_contracted"))
+            want_b.append(d)
+        got_b = [{k: b.get(k) for k in want_b[0]} for b in by.get(builder, [])] if want_b else by.get(builder, [])
+        hide = lambda ds: [{k: v for k, v in g.items() if k != "term"} for g in ds]
+        ctx.check(rule, fn, got_b == want_b and not by.get(other),
+                  f"{key}: {builder} once per term with the separator-free targets, spin" + (" and limits" if optimize else ""),
+                  f"generate_code[{key}] (optimize_contraction_scheme={optimize}): {builder} is called with "
+                  f"{hide(got_b)}, expected {hide(want_b)} for the terms in order; {other} is called {len(by.get(other, []))} times",
+                  key=f"{builder} args {key}")
+        # the program
+        operands = [op for _, ts in pl.classes for t in ts for op in term_operands(t)]
+        symbols = {s_: symbol_value(s_) for _, ts in pl.classes for t in ts for s_, _ in t.attrs["_symbols"]}
+        env = token_env(backend, operands, symbols=symbols)
+        try:
+            got = em.run_program(text, env, backend, target, ptok)
+            err = None
+        except em.EvalError as e:
+            got, err = None, str(e)
+        d = None if err else em.first_difference(got, want)
+        ctx.check(rule, fn, not err and d is None, f"{key}: the emitted program evaluates to the expression",
+                  f"generate_code[{key}]: the emitted program " +
+                  (f"is not executable: {err}" if err else f"differs from the expression at {d[0]}: {d[1]} instead of {d[2]}" if d else "")
+                  + f"; program: {text[:600]!r}", key=f"program {key}")
+    return n
 
 
 def r17e(ctx):
     rule = "R17e"
     fn = ctx.model.fn(GC + "generate_code")
-    ep = [c for c in calls_in(fn) if call_name(c) == "exploit_perm_sym"]
-    ok = len(ep) == 1 and {k.arg: U(k.value) for k in ep[0].keywords} == {
-        "expr": "expr", "target_indices": "target_indices", "target_spin": "target_spin", "bra_ket_sym": "bra_ket_sym",
-        "antisymmetric_result_tensor": "antisymmetric_result_tensor"} and not ep[0].args
-    ctx.check(rule, fn, ok, "symmetry analysis with the same targets, spin, bra-ket symmetry, tensor class",
-              "arguments handed to exploit_perm_sym changed", key="exploit args")
-    strips = [a for a in walk_fn(fn) if isinstance(a, ast.Assign) and "replace(',', '')" in U(a.value)]
-    ok = len(strips) == 2 and all(s.lineno > ep[0].lineno for s in strips) if ep else False
-    ctx.check(rule, fn, ok, "separators stripped after the symmetry analysis", "separator stripping moved or removed", key="strip order")
-    for name, want in (("optimize_contractions", {"term": "term", "target_indices": "target_indices", "target_spin": "target_spin",
-                                                  "max_itmd_dim": "max_itmd_dim",
-                                                  "max_n_simultaneous_contracted": "max_n_simultaneous_contracted"}),
-                       ("unoptimized_contraction", {"term": "term", "target_indices": "target_indices", "target_spin": "target_spin"})):
-        cs = [c for c in calls_in(fn) if call_name(c) == name]
-        ok = len(cs) == 1 and {k.arg: U(k.value) for k in cs[0].keywords} == want
-        ctx.check(rule, fn, ok, f"{name}: targets, spin and limits forwarded", f"{name}: arguments changed", key=f"{name} args")
-        if cs:
-            pol = name == "optimize_contractions"
-            ctx.check(rule, cs[0], ("optimize_contraction_scheme", pol) in conditions(cs[0]), f"{name} selected by the flag",
-                      f"{name} not selected by optimize_contraction_scheme", key=f"{name} flag")
-    cond = [n for n in walk_fn(fn) if isinstance(n, ast.If) and "contraction_name in" in U(n.test)]
-    ok = len(cond) == 1 and U(cond[0].test) == "any((contr.contraction_name in other_contr.names for other_contr in contractions[i + 1:]))" \
-        and "inner.append(contr)" in U(cond[0].body[0]) and "outer.append(contr)" in U(cond[0].orelse[0])
-    ctx.check(rule, fn, ok, "inner = result used by a later contraction", "inner/outer classification changed", key="inner outer")
-    asr = [n for n in walk_fn(fn) if isinstance(n, ast.Assert) and U(n.test) == "len(outer) == 1"]
-    ctx.check(rule, fn, len(asr) == 1, "exactly one outer contraction", "single-outer assertion removed", key="one outer")
-    ch = [a for a in walk_fn(fn) if isinstance(a, ast.Assign) and U(a.targets[0]) == "contraction_cache[contr.contraction_name]"]
-    ctx.check(rule, fn, len(ch) == 1 and U(ch[0].value) == "contr_str", "inner strings cached under the contraction's name",
-              "cache store changed", key="cache store")
-    ap = [c for c in calls_in(fn) if call_name(c) == "append" and U(c.func.value) == "contraction_code"]
-    texts = sorted(U(c.args[0]) for c in ap)
-    ctx.check(rule, fn, texts == ["f'{prefactor} * {contr_str}  {scaling_comment}'", "prefactor"],
-              "line = prefactor * contraction", f"emitted lines are {texts}", key="line")
-    pf = [c for c in calls_in(fn) if call_name(c) == "format_prefactor"]
-    ctx.check(rule, fn, len(pf) == 1 and [U(a) for a in pf[0].args] == ["term", "backend"], "prefactor of the term for the backend",
-              "format_prefactor arguments changed", key="prefactor call")
-    lp = [n for n in walk_fn(fn) if isinstance(n, ast.For) and U(n.iter) == "expr_with_perm_sym.items()"]
-    ctx.check(rule, fn, len(lp) == 1 and U(lp[0].target) == "(perm_symmetry, sub_expr)", "every symmetry class emitted",
-              "iteration over symmetry classes changed", key="classes")
-    tl = [n for n in walk_fn(fn) if isinstance(n, ast.For) and U(n.iter) == "sub_expr.terms"]
-    ctx.check(rule, fn, len(tl) == 1, "every term of a class emitted", "term iteration changed", key="terms")
-    if tl:
-        conts = [n for n in walk_fn(tl[0]) if isinstance(n, ast.Continue)]
-        ok = len(conts) == 1 and ("term.idx", False) in conditions(conts[0])
-        ctx.check(rule, tl[0], ok, "only pure numbers bypass the contraction", "terms skipped under another condition", key="term skip")
+    w = World()
+    cname = Names(ctx.model)
+    n = 0
+    for label, pl in pipelines(ctx, w, cname):
+        n += check_pipeline(ctx, rule, fn, label, pl)
+    for label, pl in random_pipelines(ctx, w, cname, 120 if ctx.tier == "thorough" else 20):
+        n += check_pipeline(ctx, rule, fn, label, pl)
+    ctx.floor(rule, "programs generated", n, 56)
+    # input guard
+    sx = make_sx(ctx, "generate_code")
+    for bad_expr, what in (("X_ia", "a string"), (Rec("expr_container:Term", "a term"), "a Term")):
+        outs = sx.run(fn, lambda: dict(expr=bad_expr, target_indices="ia"))
+        ctx.check(rule, fn, bool(outs) and all(o.kind == "raise" and o.exc == "Inputerror" for o in outs), f"{what} instead of an Expr refused",
+                  f"generate_code accepts {what} as expression: {outs}", key=f"input {what}")
+    # exactly one outer contraction
+    i, j, a, b = w("ijab")
+    t = term_rec(w, SNum(1), [], [("A", (i, a), 1), ("B", (j, b), 1)])
+    s0 = contraction(cname, 80, ["A_ov"], [(i, a)], (i, a, j, b))
+    s1 = contraction(cname, 81, ["B_ov"], [(j, b)], (i, a, j, b))
+    pl = Pipeline(ctx, w, cname, "iajb", None, [((), [t])], {id(t): [s0, s1]}, (i, a, j, b))
+    outs = pl.run("einsum")
+    ctx.check(rule, fn, bool(outs) and all(o.kind == "raise" for o in outs), "a scheme with two results is refused",
+              f"generate_code emits a program for a scheme with two unconnected contractions (one of them is lost): {outs}",
+              key="one outer")
+
+
+# ------------------------------------------------------------------------------- R17f
+
+def r17f(ctx):
+    """unoptimized_contraction: the hyper-contraction generate_code emits directly."""
+    rule = "R17f"
+    fn = ctx.model.fn(OC + "unoptimized_contraction")
+    w = World()
+    i, j, a, b = w("ijab")
+    cases = [("x_ia^2 y_a", term_rec(w, SNum(2), [("c", 1)], [("x", (i, a), 2), ("y", (a,), 1)]), "i", None, (i,)),
+             ("x_ia delta_ij^3", term_rec(w, SNum(-1), [], [("x", (i, a), 1), ("delta", (i, j), 3)]), "ja", None, (j, a)),
+             ("A_ia B_jb", term_rec(w, SNum(1), [], [("A", (i, a), 1), ("B", (j, b), 1)]), "iajb", None, (i, a, j, b)),
+             ("A_ia", term_rec(w, SNum(1), [], [("A", (i, a), 1)]), "ai", None, (a, i)),
+             ("spin labelled A_ia B_ia", term_rec(w, SNum(1), [], [("A", w("ia", "ab"), 1), ("B", w("ia", "ab"), 1)]), "ai", "ba",
+              tuple(reversed(w("ia", "ab"))))]
+    for label, term, tstr, spin, tgt in cases:
+        made = []
+
+        def get_symbols(sx, a_, kw):
+            b_ = sx.bind(ctx.model.fn("indices:get_symbols"), a_, kw, fill_defaults=True)
+            if not isinstance(b_.get("indices"), str):
+                return NotImplemented
+            return list(w(b_["indices"], b_.get("spins")))
+
+        def new_contraction(sx, a_, kw):
+            b_ = sx.bind(ctx.model.fn(CO + "Contraction.__init__"), [None] + list(a_), kw, fill_defaults=True)
+            made.append(b_)
+            return Rec(CO + "Contraction", f"contraction{len(made)}", **{k: v for k, v in b_.items() if k != "self"})
+        sx = make_sx(ctx, "unoptimized_contraction", hooks={"get_symbols": get_symbols, "Contraction": new_contraction})
+        outs = sx.run(fn, lambda: dict(term=term, target_indices=tstr, target_spin=spin))
+        key = f"unoptimized {label}"
+        ok = len(outs) == 1 and outs[0].kind == "return" and isinstance(outs[0].value, (list, tuple)) and len(outs[0].value) == 1 \
+            and len(made) == 1
+        if not ok:
+            ctx.bad(rule, fn, f"unoptimized_contraction({label}) does not return a list with one Contraction: {outs}", key=key)
+            continue
+        b_ = made[0]
+        try:
+            got = sorted((n, tuple(x.label for x in ix)) for n, ix in zip(list(b_["names"]), list(b_["indices"])))
+            aligned = len(list(b_["names"])) == len(list(b_["indices"]))
+        except (TypeError, AttributeError):
+            got, aligned = None, False
+        want = sorted((o.attrs["_long"], tuple(x.label for x in o.attrs["idx"])) for o in term.attrs["objects"]
+                      if o.attrs["_kind"] in ("tensor", "delta") for _ in range(o.attrs["exponent"]))
+        ctx.check(rule, fn, aligned and got == want, f"{label}: operands = tensors and deltas, exponent-many times",
+                  f"unoptimized_contraction({label}): the hyper-contraction has the operands {got}, expected {want}", key=key)
+        tt = b_.get("term_target_indices")
+        ctx.check(rule, fn, isinstance(tt, (tuple, list)) and tuple(tt) == tgt, f"{label}: requested target indices {tstr}",
+                  f"unoptimized_contraction({label}): term target indices {tt} instead of {[x.label for x in tgt]}", key=key + " target")
+    # refusals
+    bad = term_rec(w, SNum(1), [], [("x", (i, a), -1)])
+    sx = make_sx(ctx, "unoptimized_contraction", hooks={"get_symbols": lambda sx, a_, kw: list(w(a_[0]))})
+    outs = sx.run(fn, lambda: dict(term=bad, target_indices="ia", target_spin=None))
+    ctx.check(rule, fn, refused(outs), "negative exponent refused", f"a tensor with exponent -1 is contracted: {outs}", key="unoptimized division")
+
+
+def r17g(ctx):
+    """Emitted operand names keep tensor kinds apart: a Kronecker delta must not get the name of a configured tensor."""
+    rule = "R17g"
+    from . import c11
+    from ..symex import Obj as _Obj
+    fn = ctx.model.fn("expr_container:Obj.longname")
+    w = c11.TensorWorld(ctx.model)
+    fields = c11.class_attrs(ctx.model.cls("tensor_names:TensorNames"))
+    n = 0
+    for (p, q, sp) in (("i", "j", "oo"), ("a", "b", "vv"), ("i", "a", "ov")):
+        x, y = c11.tensor_index(p), c11.tensor_index(q)
+        d = _Obj("sympy_objects:KroneckerDelta", "<delta>")
+        d.attrs.update(args=(x, y), is_number=False)
+        dname = w.longname(d)
+        for field, tname in sorted(fields.items()):
+            if not isinstance(tname, str) or field in ("gs_amplitude", "gs_density", "left_adc_amplitude", "right_adc_amplitude"):
+                continue
+            for kind, groups in (("AntiSymmetricTensor", [(x,), (y,)]), ("NonSymmetricTensor", [(x, y)])):
+                try:
+                    t, _ = w.construct(kind, tname, groups, 0 if kind == "AntiSymmetricTensor" else None)
+                    tn = w.longname(t)
+                except AnalysisError:
+                    continue
+                n += 1
+                ctx.check(rule, fn, tn != dname, f"delta_{p}{q} ({dname}) and {field} tensor {tname}_{p}{q} ({tn}) have different emitted names",
+                          f"the Kronecker delta delta_{p}{q} and the configured {field} tensor `{tname}` on the same indices are both emitted "
+                          f"as `{dname}`: in the generated contraction code the delta and the tensor are the same operand",
+                          key=f"delta name collision {field} {sp} {kind}")
+    ctx.floor(rule, "delta/tensor name pairs", n, 10)
 
 
 def run(ctx):
-    for r, f in (("R17a", r17a), ("R17b", r17b), ("R17c", r17c), ("R17d", r17d), ("R17e", r17e)):
+    for r, f in (("R17a", r17a), ("R17b", r17b), ("R17c", r17c), ("R17d", r17d), ("R17e", r17e), ("R17f", r17f), ("R17g", r17g)):
         if ctx.want(r):
             f(ctx)
     if ctx.want("R16a"):
